@@ -159,16 +159,19 @@ func round3(f float64) float64 { return float64(int64(f*1000+0.5)) / 1000 }
 
 // W is a worker-local accumulator; merge is done when the worker ends. Not safe for concurrent use.
 type W struct {
-	r        *Run
-	evals    int64
-	ntEnum   int64
-	classes  map[string]int64
-	samples  []any
-	fails    map[string]*failRec
-	knownHit map[string]int64
-	cur      any // case being judged (for panic reports)
-	scratch  []byte
-	flip     bool
+	r           *Run
+	evals       int64
+	ntEnum      int64
+	classes     map[string]int64
+	samples     []any
+	fails       map[string]*failRec
+	knownHit    map[string]int64
+	cur         any // case being judged (for panic reports)
+	scratch     []byte
+	flip        bool
+	scratchLast string
+	scratchSet  bool
+	retained    map[string]*retained
 }
 
 // NewW returns a fresh worker accumulator.
@@ -287,6 +290,7 @@ func trimStack(b []byte) string {
 
 // Done merges the worker into the run.
 func (w *W) Done() {
+	w.verifyScratch()
 	r := w.r
 	atomic.AddInt64(&r.evals, w.evals)
 	r.mu.Lock()
@@ -772,14 +776,91 @@ func (w *W) Flip() bool {
 	return w.flip
 }
 
-// Scratch copies s into a buffer owned by the worker and returns it. Judges hand this buffer (not a fresh allocation) to
-// the []byte instantiations of the parsers: a caller is free to reuse one read buffer for successive inputs, so a parser
-// that remembers (aliases) the bytes of an earlier call would then see the buffer change under it.
+// Scratch copies s into a buffer owned by the worker and returns it (len(s), with spare capacity behind it that holds guard
+// bytes). Judges hand this buffer (not a fresh allocation) to the []byte instantiations of the parsers: a caller is free to
+// reuse one read buffer for successive inputs, so a parser that remembers (aliases) the bytes of an earlier call would see
+// the buffer change under it. Before the buffer is reused, the previous content and the guard bytes behind it are verified:
+// no callee may modify the bytes it is given or write behind them.
 func (w *W) Scratch(s string) []byte {
-	if cap(w.scratch) < len(s) {
-		w.scratch = make([]byte, len(s), len(s)*2+64)
+	w.verifyScratch()
+	need := len(s) + scratchGuard
+	if cap(w.scratch) < need {
+		w.scratch = make([]byte, need, need*2+64)
 	}
-	w.scratch = w.scratch[:len(s)]
+	w.scratch = w.scratch[:need]
 	copy(w.scratch, s)
-	return w.scratch
+	for i := len(s); i < need; i++ {
+		w.scratch[i] = guardByte
+	}
+	w.scratchLast = s
+	w.scratchSet = true
+	return w.scratch[:len(s)] // cap reaches over the guard bytes: a callee that appends to its input is caught
+}
+
+const (
+	scratchGuard = 8
+	guardByte    = 0xEE
+)
+
+func (w *W) verifyScratch() {
+	if !w.scratchSet {
+		return
+	}
+	w.scratchSet = false
+	n := len(w.scratchLast)
+	if len(w.scratch) < n+scratchGuard {
+		return
+	}
+	if string(w.scratch[:n]) != w.scratchLast {
+		w.Fail(map[string]any{"input": B(w.scratchLast), "case": w.cur}, "input-modified", fmt.Sprintf("a callee changed the %d input bytes it was given: %q -> %q", n, w.scratchLast, w.scratch[:n]))
+	}
+	for i := n; i < n+scratchGuard; i++ {
+		if w.scratch[i] != guardByte {
+			w.Fail(map[string]any{"input": B(w.scratchLast), "case": w.cur}, "wrote-behind-input", fmt.Sprintf("a callee wrote behind the %d-byte input slice it was given (spare capacity of the caller's buffer): %v", n, w.scratch[n:n+scratchGuard]))
+			break
+		}
+	}
+}
+
+// Retain keeps a result (as returned, not copied) together with the text it must have; when the next result with the same
+// label arrives, the earlier one is checked again. A callee that hands out pooled or shared storage shows up as an earlier
+// result that changed after a later call.
+func (w *W) Retain(c any, label string, got string, want string) {
+	if w.retained == nil {
+		w.retained = map[string]*retained{}
+	}
+	if p := w.retained[label]; p != nil {
+		if cur := p.current(); cur != p.want {
+			w.Fail(p.c, "earlier-result-changed-by-later-call", fmt.Sprintf("%s: a result that read %q when it was returned reads %q after a later call", label, p.want, cur))
+		}
+	}
+	w.retained[label] = &retained{c: c, str: got, want: want}
+}
+
+// RetainBytes is Retain for a returned byte slice (kept as returned).
+func (w *W) RetainBytes(c any, label string, got []byte, want string) {
+	if w.retained == nil {
+		w.retained = map[string]*retained{}
+	}
+	if p := w.retained[label]; p != nil {
+		if cur := p.current(); cur != p.want {
+			w.Fail(p.c, "earlier-result-changed-by-later-call", fmt.Sprintf("%s: a result that read %q when it was returned reads %q after a later call", label, p.want, cur))
+		}
+	}
+	w.retained[label] = &retained{c: c, bytes: got, isBytes: true, want: want}
+}
+
+type retained struct {
+	c       any
+	str     string
+	bytes   []byte
+	isBytes bool
+	want    string
+}
+
+func (r *retained) current() string {
+	if r.isBytes {
+		return string(r.bytes)
+	}
+	return r.str
 }
